@@ -176,6 +176,7 @@ func (b *BloomSearchEngine) IngestRows(ctx context.Context, rows []map[string]an
 	}
 
 	req := &ingestRequest{rows: rows, doneChan: doneChan}
+	verifPoint("ingest.beforeSend")
 
 	// Sending under the read lock means Stop cannot set stopped (and cancel
 	// b.ctx) until this send lands, so the shutdown drain always sees it. The
@@ -203,6 +204,7 @@ func (b *BloomSearchEngine) Flush(ctx context.Context) error {
 
 	doneChan := make(chan error, 1)
 	req := &ingestRequest{forceFlush: true, doneChan: doneChan}
+	verifPoint("flush.beforeSend")
 
 	select {
 	case b.ingestChan <- req:
@@ -218,6 +220,7 @@ func (b *BloomSearchEngine) Flush(ctx context.Context) error {
 func (b *BloomSearchEngine) ingestWorker() {
 	defer func() {
 		close(b.ingestDone)
+		verifPoint("ingestWorker.exit")
 		b.wg.Done()
 	}()
 
@@ -236,6 +239,7 @@ func (b *BloomSearchEngine) ingestWorker() {
 		select {
 		case <-b.ctx.Done():
 			b.logger.Debug("ingest worker stopping; draining accepted requests")
+			verifPoint("ingestWorker.draining")
 			// Stop set the stopped flag before canceling b.ctx, so ingestChan
 			// can no longer receive new requests: draining until empty
 			// processes every accepted batch. Requests are processed with the
@@ -560,6 +564,7 @@ func (b *BloomSearchEngine) triggerFlush(partitionBuffers map[string]*partitionB
 		doneChans:        doneChans,
 	}
 
+	verifPoint("triggerFlush.enqueue")
 	select {
 	case b.flushChan <- flushReq:
 		// Successfully queued for flush
